@@ -1,2 +1,2 @@
-/- C01 — theorems are being added. -/
-import DsdVerif.Model.World
+/- C01 — singleton identity: theorems are in Props/C01Reg.lean. -/
+import DsdVerif.Props.C01Reg
